@@ -63,6 +63,7 @@ type HarnessResult struct {
 	Covers       map[string]*Violation // tag -> witness
 	CoverTags    map[string]bool       // all cover tags seen statically reached
 	Inconclusive map[string]int        // reason -> count
+	Cuts         map[string]int        // deliberate cuts (outside the claim) -> count
 	Steps        int64
 	Funcs        map[string]bool
 	Stubs        map[string]bool
@@ -96,6 +97,7 @@ type Engine struct {
 	intr      map[string]intrinsic
 	rtErrType value // types.Type of runtime.errorString (set in load)
 	lp        *loaded
+	once      sync.Map
 }
 
 type Worker struct {
@@ -164,6 +166,7 @@ type Path struct {
 	fnSeen      map[*ssa.Function]bool
 	onceDone    map[*value]bool
 	fmtDepth    int
+	unknowns    int
 	stack       []*ssa.Function
 	initDepth   int
 	pollLimit   int
@@ -224,6 +227,12 @@ func (p *Path) check(c *Term) (string, Model) {
 	if c.IsFalse() {
 		return "unsat", nil
 	}
+	if !p.eng.cfg.Deadline.IsZero() && time.Now().After(p.eng.cfg.Deadline) {
+		panic(abortPath{"bound-exceeded", "wall-clock budget (before a solver query) at " + p.where()})
+	}
+	if p.unknowns >= 3 {
+		panic(abortPath{"solver-unknown", "3 undecided queries on one path, last at " + p.where()})
+	}
 	p.flush()
 	w := p.w
 	r := w.prn.Ref(c)
@@ -244,6 +253,9 @@ func (p *Path) check(c *Term) (string, Model) {
 		} else {
 			m = p.expandModel(m)
 		}
+	}
+	if res == "unknown" {
+		p.unknowns++
 	}
 	w.solver.Send("(pop 1)\n")
 	if w.solver.dead {
@@ -592,7 +604,7 @@ func (p *Path) cover(tag string) {
 func (e *Engine) RunHarness(fn *ssa.Function) *HarnessResult {
 	res := &HarnessResult{
 		Name: fn.Name(), KnownHits: map[string]*Violation{}, Covers: map[string]*Violation{},
-		CoverTags: map[string]bool{}, Inconclusive: map[string]int{}, Funcs: map[string]bool{}, Stubs: map[string]bool{},
+		CoverTags: map[string]bool{}, Inconclusive: map[string]int{}, Cuts: map[string]int{}, Funcs: map[string]bool{}, Stubs: map[string]bool{},
 	}
 	t0 := time.Now()
 	var mu sync.Mutex
@@ -693,6 +705,12 @@ func (e *Engine) runPath(w *Worker, fn *ssa.Function, it *WorkItem, res *Harness
 		case abortPath:
 			if r.kind == "infeasible" {
 				atomic.AddInt64(&res.Completed, 1)
+				return
+			}
+			if r.kind == "cut" {
+				res.mu.Lock()
+				res.Cuts[r.msg]++
+				res.mu.Unlock()
 				return
 			}
 			if e.cfg.Verbose {
